@@ -65,6 +65,8 @@ def _table_of(e):
         masked = True
     if isinstance(e, ast.Attribute) and is_self_attr(e.value):
         return e.value.attr, e.attr, masked
+    if isinstance(e, ast.Subscript) and is_self_attr(e.value) and isinstance(const_value(e.slice), str):
+        return e.value.attr, const_value(e.slice), masked            # table['column']
     if isinstance(e, ast.Subscript) and is_self_attr(e.value.value if isinstance(e.value, ast.Attribute) else None):
         pass
     return None, None, masked
@@ -361,7 +363,16 @@ def run(ctx):
 
     if len(methods) < 4:
         raise AnalysisError("expected >= 4 look-up methods in Binned, found %d" % len(methods))
+    from ..inline import inlined
+    from ..canon import fold_temporaries
+    import copy as _copy
     for fi in methods:
+        fi0 = fi
+        fi = inlined(prog, fi)                 # the class search / row selection may live in shared private helpers
+        if fi is not fi0:
+            fold_temporaries(fi.node)
+            from ..frontend import set_parents
+            set_parents(fi.node)
         cfg = CFG(fi.node)
         dom = cfg.dominators()
         returns = [s for s in walk_function(fi.node) if isinstance(s, ast.Return) and s.value is not None]
